@@ -4,18 +4,18 @@ CONSTANTS
  NP = 2
  Groups <- TwoGroups
  Apis <- ProduceOnly
- MaxItems = 2
- MaxReq = 1
- MaxEnv = 2
+ MaxItems = 1
+ MaxReq = 3
+ MaxEnv = 3
  Leasing = TRUE
  AutoSet <- AutoOn
  RichPerms = FALSE
  FixMetaAcl = TRUE
  DevNoAclOn <- NoApis
  DevGateAfterAppend = "none"
- DevLeaseCheckSkipped = TRUE
+ DevLeaseCheckSkipped = FALSE
  DevFetchAclOnRequestName = FALSE
- DevStaleOwnedOnSessionReplace = FALSE
+ DevStaleOwnedOnSessionReplace = TRUE
 INIT Init
 NEXT Next
 INVARIANTS C19_AckOnlyIfHeld C19_NoWriteUnlessHeld C19_RefusalCode C19_NotLeaderForOtherOwner
